@@ -94,7 +94,8 @@ func run(pass *analysis.Pass) (any, error) {
 					X:   ast.NewIdent("fmt"),
 					Sel: ast.NewIdent(newName),
 				},
-				Args: append([]ast.Expr{recv}, args...),
+				Args:     append([]ast.Expr{recv}, args...),
+				Ellipsis: sprintEllipsis(node),
 			}))
 			report.Report(pass, node, msg, report.Fixes(fix))
 		} else if m, ok := code.Match(pass, checkWriteStringSprintfQ, node); ok {
@@ -118,7 +119,8 @@ func run(pass *analysis.Pass) (any, error) {
 					X:   ast.NewIdent("fmt"),
 					Sel: ast.NewIdent(newName),
 				},
-				Args: append([]ast.Expr{recv}, args...),
+				Args:     append([]ast.Expr{recv}, args...),
+				Ellipsis: sprintEllipsis(node),
 			}))
 			report.Report(pass, node, msg, report.Fixes(fix))
 		}
@@ -128,4 +130,20 @@ func run(pass *analysis.Pass) (any, error) {
 	}
 	code.Preorder(pass, fn, (*ast.CallExpr)(nil))
 	return nil, nil
+}
+
+// sprintEllipsis returns the position of the "..." of the fmt.Sprint* call nested in
+// w.Write([]byte(fmt.Sprint*(args...))) or w.WriteString(fmt.Sprint*(args...)), if it has one.
+func sprintEllipsis(node ast.Node) token.Pos {
+	call, ok := node.(*ast.CallExpr)
+	for ok && len(call.Args) == 1 {
+		if call.Ellipsis.IsValid() {
+			return call.Ellipsis
+		}
+		call, ok = call.Args[0].(*ast.CallExpr)
+	}
+	if ok {
+		return call.Ellipsis
+	}
+	return token.NoPos
 }
